@@ -1,4 +1,5 @@
 import Csproto.Model.Shim
+import Csproto.Model.Ext
 import Driver.Proto
 /- driver command M: shim decision logic -/
 namespace Csproto.Driver
@@ -11,6 +12,61 @@ def cmdM : List String → String
       let t (x : Char) := x = '1'
       toString (msgType { nilIface := t a, isV2 := t b, isPtr := t c, isV1Iface := t d, gogoRegistered := t e }).toNat
     | _ => "bad"
+  | ["equal", t1, t2, same, rt] =>
+    let mt (s : String) : Option MT :=
+      match s with
+      | "0" => some .unknown | "1" => some .gogo | "2" => some .googleV1 | "3" => some .google | _ => none
+    match mt t1, mt t2 with
+    | some a, some b => if shimEqual a b (same == "1") (rt == "1") then "1" else "0"
+    | _, _ => "bad"
+  | _ => "bad"
+
+/-! `M ext <mt> <dk> <init> ; op ; op ; …` — a history of extension accessor calls through the dispatcher
+    (`C12.runCs`) on the abstract store; `init` is `-` or `k:v,k:v,…`; ops: `set k v`, `clear k`, `clearall`,
+    `has k`, `get k`, `range`.  Reply: one token per op (`u`, `b0`/`b1`, `v<n>`/`vnone`, `k<sorted numbers>`,
+    `err`, `panic`). -/
+
+def parseMT : String → Option MT
+  | "0" => some .unknown | "1" => some .gogo | "2" => some .googleV1 | "3" => some .google | _ => none
+
+def parseDK : String → Option C12.DK
+  | "gogoDesc" => some .gogoDesc | "googleInfo" => some .googleInfo | "otherV2Type" => some .otherV2Type
+  | "other" => some .other | _ => none
+
+def parseExtOp (s : String) : Option C12.Op :=
+  match words s with
+  | ["set", k, v] => do pure (.set (← k.toNat?) (← v.toNat?))
+  | ["clear", k] => do pure (.clear (← k.toNat?))
+  | ["clearall"] => some .clearAll
+  | ["has", k] => do pure (.has (← k.toNat?))
+  | ["get", k] => do pure (.get (← k.toNat?))
+  | ["range"] => some .range
+  | _ => none
+
+def parseStore (s : String) : Option C12.Store :=
+  parseList (fun kv => match kv.splitOn ":" with
+    | [k, v] => do pure ((← k.toNat?), (← v.toNat?))
+    | _ => none) s
+
+def insertSortedNat (n : Nat) : List Nat → List Nat
+  | [] => [n]
+  | m :: ms => if n ≤ m then n :: m :: ms else m :: insertSortedNat n ms
+
+def showExtOut : C12.Out → String
+  | .unit => "u"
+  | .bool b => if b then "b1" else "b0"
+  | .val none => "vnone"
+  | .val (some v) => s!"v{v}"
+  | .keys ks => "k" ++ showList toString (ks.foldr insertSortedNat [])
+  | .err => "err"
+  | .panic => "panic"
+
+def cmdMext (args rest : List String) : String :=
+  match args with
+  | [mt, dk, init] =>
+    match parseMT mt, parseDK dk, parseStore init, rest.mapM parseExtOp with
+    | some mt, some dk, some st, some ops => " ".intercalate ((C12.runCs mt dk st ops).2.map showExtOut)
+    | _, _, _, _ => "bad"
   | _ => "bad"
 
 end Csproto.Driver
